@@ -100,7 +100,12 @@ def decode_concat(d):
                 b[1][d.below(len(b[1]))][d.below(2)] = tiny
             elif b[0] in ("rect", "line"):
                 b[1][d.below(2)] = tiny
-    return {"concat": [a, b], "op": d.choice(["add", "iadd"])}
+    case = {"concat": [a, b], "op": d.choice(["add", "iadd"])}
+    if b[0] != "path" and d.bool():
+        # the shape carries a transform of its own: rotated, mirrored, moved (straight shapes also skewed / stretched)
+        straight = b[0] in ("line", "polyline", "polygon") or (b[0] == "rect" and b[1][4] == 0 and b[1][5] == 0)
+        case["btransform"] = gen.matrix(d, classes=["similarity", "reflection", "translate"] + (["aniso", "skew"] if straight else []))
+    return case
 
 
 def decode_moveadd(d):
@@ -142,7 +147,12 @@ def same_paths(o, got, want, S, what, arc_tol=None, rel=1e-12):
             return o.violation("%s:segment-kind" % what, "segment %d is %s, joined text gives %s" % (i, kg, kw))
         if kg == "A":
             pg, pw = lib.sample(g), lib.sample(w)
-            t = arc_tol if arc_tol is not None else 1e-9 * S
+            if arc_tol is not None:
+                # through d(): six significant digits of radii and rotation (C07's known finding), by the arc's conditioning
+                from . import c07
+                t = arc_tol + c07.arc_bound(w, 6e-6)
+            else:
+                t = 1e-9 * S
         else:
             pg = [lib.xy(p) for p in g if p is not None] + [lib.xy(g.end)]
             pw = [lib.xy(p) for p in w if p is not None] + [lib.xy(w.end)]
@@ -268,12 +278,18 @@ def check_concat(case):
         arc_tol = None
         rel = 1e-12
     else:
-        other = mk_shape(b)
+        bt = case.get("btransform")
+        other = mk_shape(b, transform=lib.mk_matrix(bt["m"])) if bt else mk_shape(b)
         expect_b = list(se.Path(other).segments(transformed=True))
         o.label("concat:shape", "concat:%s" % b[0])
+        if bt:
+            o.label("concat:shape-with-transform", "concat:shape-transform:%s" % bt["cls"])
         arc_tol = 1e-5
         rel = 2e-11  # the shape is appended through its 12-significant-digit d() text
     S = lib.scale_of(a, b[1])
+    if case.get("btransform"):
+        m = case["btransform"]["m"]
+        S = max(S, S * gen.mat_norm(m) * 2 + abs(m[4]) + abs(m[5]))
     if case["op"] == "add":
         res = pa + other
         if snapshot(pa) != before:
